@@ -20,6 +20,7 @@ mod lex;
 mod parse;
 mod positions;
 mod props;
+mod usetree;
 
 use std::collections::BTreeSet;
 
